@@ -45,3 +45,84 @@ Print Assumptions C04_reader_roundtrip.
 Theorem C04_escape_concat : forall a b : bytes, escape (a ++ b) = escape a ++ escape b.
 Proof. exact escape_app. Qed.
 Print Assumptions C04_escape_concat.
+
+(* ---- the program-level marker theorem on the proved fragment (Proofs/C04MarkerProofs.v) ------------------------
+   Programs: the control fragment of Pug/Lower.v (text, tags, escaped buffered code, var / assignment / ++,
+   if / else, while) in which the hostile names T — data variables and the variables declared or assigned from
+   them — occur only in transparent positions ([safe_list T]: no test mentions T; a T-variable is printed by escaped
+   buffered code `= e` and stored into T-variables only, e built from T-variables, T-free expressions, `+`, and
+   `c ? a : b` with a T-free test; everything else is T-free).  Data: a map of scalars; [dset T h l] is the data with
+   the string h — ANY bytes — at every name of T. *)
+From PV Require Import Pug.Ast Pug.Lower Spec.Sem Run.Judge_Core Proofs.C01EvalProofs Proofs.C02InstProofs
+  Proofs.C04MarkerProofs.
+
+(* the key lemma: a T-free expression evaluates alike in every instance [mk SE base segs h] of a symbolic state
+   (the variables hold their symbolic values with h in the holes, the output chunks have escape h in theirs; heap
+   and flags as in base), when the variables outside T hold h-independent values: same value, same outcome kind,
+   result states instances of one symbolic state again — so no test of the program can depend on h *)
+Theorem C04_tfree_eval_independent : forall (T : list bytes) (e : jexpr) (f : nat) (SE : symenv) (base : sstate)
+    (segs : list (list seg)) (h : bytes),
+  Inv T SE -> tfree T e = true ->
+  sem_expr f (mk SE base segs h) e = rmap (fun s' => mk SE s' segs h) (sem_expr f (reframe (inst [] SE) [] base) e).
+Proof. exact tfree_mk. Qed.
+Print Assumptions C04_tfree_eval_independent.
+
+(* S: there is ONE list of segments (literal chunk | hole) — and one list of deviation flags, or one of the other
+   outcomes — such that for EVERY string h the rendering is the segments with escape h in the holes *)
+Theorem C04_fragment_marker_spec : forall (T : list bytes) (nodes : list pnode) (l : list (bytes * dval)),
+  safe_list T nodes = true -> forallb (fun kv => scalar_d (snd kv)) l = true ->
+  exists r : sym_final, forall h : bytes, sem_run nodes (sd_top (DMap (dset T h l))) = finst h r.
+Proof. exact S_marker. Qed.
+Print Assumptions C04_fragment_marker_spec.
+
+(* M: the same for the executor model running the lowered program (through C02_program_scalar): whatever the bytes
+   of h, they reach the output only through the escaper *)
+Theorem C04_fragment_marker : forall (funcs names T : list bytes) (nodes : list pnode) (t : list tnode)
+    (l : list (bytes * dval)),
+  lower_nodes funcs (goodS funcs names) nodes = Some t -> safe_list T nodes = true ->
+  data_ok names (DMap l) = true ->
+  exists r : sym_final, forall h : bytes,
+    sem_run nodes (sd_top (DMap (dset T h l))) = finst h r /\
+    match r with
+    | FOut cs [] => run_program {| p_main := t; p_defs := [] |} (DMap (dset T h l)) = OOk (fill_holes (escape h) cs) \/
+                    run_program {| p_main := t; p_defs := [] |} (DMap (dset T h l)) = OFuel
+    | FErr [] => run_program {| p_main := t; p_defs := [] |} (DMap (dset T h l)) = OPanic \/
+                 run_program {| p_main := t; p_defs := [] |} (DMap (dset T h l)) = OFuel
+    | _ => True
+    end.
+Proof. exact M_marker. Qed.
+Print Assumptions C04_fragment_marker.
+
+(* segments and substitution: a marker that holds none of the five characters and whose first byte occurs in no
+   literal chunk (= not in the rendering with the empty string) *)
+Theorem C04_marker_subst_segments : forall (cs : list seg) (c0 : ascii) (m' h : bytes),
+  existsb is_special (c0 :: m') = false -> ~ In c0 (fill_holes [] cs) ->
+  fill_holes (escape h) cs = replace_all (c0 :: m') (escape h) (fill_holes (escape (c0 :: m')) cs).
+Proof. exact marker_subst. Qed.
+Print Assumptions C04_marker_subst_segments.
+
+(* the marker form, S: rendering with a hostile string = rendering with the marker, then substituting the escaped
+   string for the marker *)
+Theorem C04_fragment_marker_subst_spec : forall (T : list bytes) (nodes : list pnode) (l : list (bytes * dval))
+    (c0 : ascii) (m' o0 : bytes) (fl : list nat),
+  safe_list T nodes = true -> forallb (fun kv => scalar_d (snd kv)) l = true ->
+  existsb is_special (c0 :: m') = false ->
+  sem_run nodes (sd_top (DMap (dset T [] l))) = SOut o0 fl -> ~ In c0 o0 ->
+  exists om, sem_run nodes (sd_top (DMap (dset T (c0 :: m') l))) = SOut om fl /\
+    forall h, sem_run nodes (sd_top (DMap (dset T h l))) = SOut (replace_all (c0 :: m') (escape h) om) fl.
+Proof. exact S_marker_subst. Qed.
+Print Assumptions C04_fragment_marker_subst_spec.
+
+(* the marker form, M: the oracle of the correspondence check, proved for the model on the fragment *)
+Theorem C04_fragment_marker_subst : forall (funcs names T : list bytes) (nodes : list pnode)
+    (t : list tnode) (l : list (bytes * dval)) (c0 : ascii) (m' o0 : bytes),
+  lower_nodes funcs (goodS funcs names) nodes = Some t -> safe_list T nodes = true ->
+  data_ok names (DMap l) = true ->
+  existsb is_special (c0 :: m') = false ->
+  sem_run nodes (sd_top (DMap (dset T [] l))) = SOut o0 [] -> ~ In c0 o0 ->
+  forall h om oh,
+    run_program {| p_main := t; p_defs := [] |} (DMap (dset T (c0 :: m') l)) = OOk om ->
+    run_program {| p_main := t; p_defs := [] |} (DMap (dset T h l)) = OOk oh ->
+    oh = replace_all (c0 :: m') (escape h) om.
+Proof. exact M_marker_subst. Qed.
+Print Assumptions C04_fragment_marker_subst.
